@@ -622,7 +622,7 @@ def run(ctx):
         recovery_table(ctx)
     ctx.trusted += ['scipy.stats.kendalltau, scipy.optimize.least_squares / integrate.quad (Frank theta) and the three cumulative_distribution '
                     'methods are oracles of the model (captured values; the cdf kernels themselves are the subject of C06)',
-                    'numpy.linspace(EPSILON, 1-EPSILON, 50) is denoted by the exact rational grid (each float point is checked to be within 4 units of its dtype's precision of it)',
+                    'numpy.linspace(EPSILON, 1-EPSILON, 50) is denoted by the exact rational grid (each float point is checked to be within 4 units in the last place (of the grid dtype) of it)',
                     'float rounding inside the distance sums is not modelled: cases whose distances are closer than 1e-9 relative without being '
                     'equal are skipped (counted in ill_conditioned_skipped)']
     ctx.assumptions += ['Model.SelectCopula is hand-written; tied to the source by the generated Gen_selcop.v + bridge lemmas and by the L1/L2 correspondence',
